@@ -193,6 +193,10 @@ func (l *Lexer) Next(p []byte) (TokenType, []byte, error) {
 				continue
 			}
 		case OpAttachment:
+			// the length becomes an int64 reader limit and a relative seek distance
+			if recordLen > math.MaxInt64 {
+				return TokenError, nil, fmt.Errorf("attachment record length %d: %w", recordLen, ErrLengthOutOfRange)
+			}
 			limitReader := &io.LimitedReader{
 				R: l.reader,
 				N: int64(recordLen),
